@@ -1284,7 +1284,6 @@ Section FileLevel.
       destruct (vitem_of s); cbn; repeat split; auto;
         try (destruct (last_filter (vitems r)); reflexivity);
         try (destruct (last_desc (vitems r)); reflexivity).
-      discriminate C.
   Qed.
 
   Lemma build_view_spec n0 name lines v :
@@ -1316,3 +1315,512 @@ Section FileLevel.
     destruct Hb as (H1 & H2 & _). now rewrite H1, H2.
   Qed.
 End FileLevel.
+
+(* ========================================================================================== *)
+(* H. malformed files are rejected, and the error names the offending line                       *)
+
+Section Reject.
+  Variable pyparse : string -> bool.
+
+  Lemma foldM_apply_prop_err ps st n k :
+    foldM apply_prop ps st = Err n k -> exists s, In (n, s) ps /\ prop_check s = Some k.
+  Proof.
+    intros H. apply foldM_Err in H as (st' & [n' s] & Hin & H).
+    rewrite apply_prop_split in H. cbn [fst snd] in H.
+    destruct (prop_check s) eqn:C; [|discriminate]. inversion H; subst. eauto.
+  Qed.
+
+  Lemma foldM_apply_prop_bad ps st n s k :
+    In (n, s) ps -> prop_check s = Some k -> is_ok (foldM apply_prop ps st) = false.
+  Proof.
+    intros Hin C. destruct (foldM apply_prop ps st) as [st'|] eqn:F; [|reflexivity].
+    apply fold_props_spec in F. destruct F as (_ & _ & _ & _ & _ & _ & _ & _ & F).
+    rewrite Forall_forall in F. specialize (F _ Hin). cbn in F. congruence.
+  Qed.
+
+  Inductive finish_defect (pr : prule) : ekind -> Prop :=
+  | FD_match : p_match pr = None -> finish_defect pr EMissingMatch
+  | FD_cat : finish_defect pr ENoCategoryOrTags
+  | FD_let b : In b (p_lets pr) -> pyparse (snd b) = false -> finish_defect pr EInvalidLet
+  | FD_field b : In b (p_fields pr) -> pyparse (snd b) = false -> finish_defect pr EInvalidField
+  | FD_expr m : p_match pr = Some m -> pyparse m = false -> finish_defect pr EInvalidMatch.
+
+  Lemma forallb_false_ex {A} (f : A -> bool) l : forallb f l = false -> exists x, In x l /\ f x = false.
+  Proof.
+    induction l as [|a l IH]; [discriminate|]. simpl. destruct (f a) eqn:E.
+    - intros H. destruct (IH H) as [x [Hin Hx]]. eauto.
+    - intros _. eauto.
+  Qed.
+
+  Lemma finish_rule_err n0 name pr n k :
+    finish_rule pyparse n0 name pr = Err n k -> n = n0 /\ finish_defect pr k.
+  Proof.
+    unfold finish_rule. destruct (p_match pr) as [m|] eqn:M.
+    2:{ intros H; inversion H; subst. split; [reflexivity|now constructor]. }
+    destruct (negb _) eqn:E1; [intros H; inversion H; subst; split; [reflexivity|constructor]|].
+    destruct (forallb (fun b => pyparse (snd b)) (p_lets pr)) eqn:E2; cbn [negb].
+    2:{ intros H; inversion H; subst. split; [reflexivity|].
+        apply forallb_false_ex in E2 as [b [Hin Hb]]. eapply FD_let; eauto. }
+    destruct (forallb (fun b => pyparse (snd b)) (p_fields pr)) eqn:E3; cbn [negb].
+    2:{ intros H; inversion H; subst. split; [reflexivity|].
+        apply forallb_false_ex in E3 as [b [Hin Hb]]. eapply FD_field; eauto. }
+    destruct (pyparse m) eqn:E4; cbn [negb]; [discriminate|].
+    intros H; inversion H; subst. split; [reflexivity|]. eapply FD_expr; eauto.
+  Qed.
+
+  (* every way a section can fail *)
+  Lemma build_rule_err n0 name ps n k :
+    build_rule pyparse (n0, name, ps) = Err n k ->
+    (k = EEmptyName /\ n = n0 /\ name = EmptyString) \/
+    (exists s, In (n, s) ps /\ prop_check s = Some k) \/
+    (n = n0 /\ exists pr, foldM apply_prop ps prule0 = Ok pr /\ finish_defect pr k).
+  Proof.
+    unfold build_rule. destruct (is_empty name) eqn:En.
+    - intros H; inversion H; subst. left. destruct name; [auto|discriminate].
+    - destruct (foldM apply_prop ps prule0) as [pr|] eqn:F; cbn [bind].
+      + intros H. apply finish_rule_err in H as [-> D]. right. right. eauto.
+      + intros H; inversion H; subst. right. left. now apply foldM_apply_prop_err in F.
+  Qed.
+
+  Lemma prop_check_kinds s k :
+    prop_check s = Some k ->
+    (k = EUnexpected /\ prop_of s = None) \/
+    exists key v, prop_of s = Some (key, v) /\
+      ((k = EUnknownProperty /\ key_of key = KUnknown) \/
+       (k = EBadLet /\ key_of key = KLet /\ ident_eq v = None) \/
+       (k = EBadField /\ key_of key = KField /\ ident_eq v = None) \/
+       (k = EBadPriority /\ key_of key = KPriority /\ parse_int v = None)).
+  Proof.
+    unfold prop_check. destruct (prop_of s) as [[key v]|]; [|intros H; inversion H; auto].
+    intros H. right. exists key, v. split; [reflexivity|].
+    destruct (key_of key); cbn [kv_check] in H; try discriminate H.
+    - destruct (ident_eq v); [discriminate H|]. inversion H. auto.
+    - destruct (ident_eq v); [discriminate H|]. inversion H. auto 6.
+    - destruct (parse_int v); [discriminate H|]. inversion H. auto 8.
+    - inversion H. auto.
+  Qed.
+
+  (* ---- completeness: a defective section makes the whole file an error ---- *)
+  Lemma m_reject_bad_line ls n0 name ps n s k :
+    In (n0, name, ps) (sections_m ls) -> In (n, s) ps -> prop_check s = Some k ->
+    is_ok (parse_merchants pyparse ls) = false.
+  Proof.
+    intros Hs Hin C.
+    destruct (build_rule pyparse (n0, name, ps)) as [r|n' k'] eqn:B.
+    - apply build_rule_spec in B. cbn zeta in B.
+      destruct B as (_ & _ & _ & _ & _ & _ & _ & _ & _ & _ & _ & F & _).
+      rewrite Forall_forall in F. specialize (F _ Hin). cbn in F. congruence.
+    - eapply parse_m_bad_section; eauto.
+  Qed.
+
+  Lemma m_reject_missing_match ls n0 name ps :
+    In (n0, name, ps) (sections_m ls) -> last_of KMatch (kvs ps) = None ->
+    is_ok (parse_merchants pyparse ls) = false.
+  Proof.
+    intros Hs Hm.
+    destruct (build_rule pyparse (n0, name, ps)) as [r|n' k'] eqn:B.
+    - apply build_rule_spec in B. cbn zeta in B. destruct B as (_ & _ & _ & B & _). congruence.
+    - eapply parse_m_bad_section; eauto.
+  Qed.
+
+  Lemma m_reject_invalid_match ls n0 name ps m :
+    In (n0, name, ps) (sections_m ls) -> last_of KMatch (kvs ps) = Some m -> pyparse m = false ->
+    is_ok (parse_merchants pyparse ls) = false.
+  Proof.
+    intros Hs Hm Hp.
+    destruct (build_rule pyparse (n0, name, ps)) as [r|n' k'] eqn:B.
+    - apply build_rule_spec in B. cbn zeta in B.
+      destruct B as (_ & _ & _ & B & _ & _ & _ & _ & _ & _ & _ & _ & P & _). congruence.
+    - eapply parse_m_bad_section; eauto.
+  Qed.
+
+  Lemma forallb_in {A} (f : A -> bool) l x : forallb f l = true -> In x l -> f x = true.
+  Proof. intros H Hin. rewrite forallb_forall in H. auto. Qed.
+
+  Lemma m_reject_invalid_let ls n0 name ps n s k v id e :
+    In (n0, name, ps) (sections_m ls) -> In (n, s) ps -> prop_of s = Some (k, v) -> key_of k = KLet ->
+    ident_eq v = Some (id, e) -> pyparse e = false ->
+    is_ok (parse_merchants pyparse ls) = false.
+  Proof.
+    intros Hs Hin P K I Hp.
+    destruct (build_rule pyparse (n0, name, ps)) as [r|n' k'] eqn:B.
+    - apply build_rule_spec in B. cbn zeta in B.
+      destruct B as (_ & _ & _ & _ & _ & _ & _ & _ & _ & L & _ & _ & _ & PL & _).
+      assert (X : In (lower id, e) (r_lets r)).
+      { rewrite L. unfold lets_of. apply in_flat_map. exists (KLet, v). split.
+        - rewrite <- K. eapply in_kvs; eauto.
+        - cbn. rewrite I. now left. }
+      pose proof (forallb_in _ _ _ PL X) as Y. cbn in Y. congruence.
+    - eapply parse_m_bad_section; eauto.
+  Qed.
+
+  Lemma m_reject_invalid_field ls n0 name ps x e :
+    In (n0, name, ps) (sections_m ls) -> In (x, e) (dict_of [] (fields_of (kvs ps))) -> pyparse e = false ->
+    is_ok (parse_merchants pyparse ls) = false.
+  Proof.
+    intros Hs Hin Hp.
+    destruct (build_rule pyparse (n0, name, ps)) as [r|n' k'] eqn:B.
+    - apply build_rule_spec in B. cbn zeta in B.
+      destruct B as (_ & _ & _ & _ & _ & _ & _ & _ & _ & _ & F & _ & _ & _ & PF).
+      rewrite F in PF. pose proof (forallb_in _ _ _ PF Hin) as Y. cbn in Y. congruence.
+    - eapply parse_m_bad_section; eauto.
+  Qed.
+
+  (* ---- naming: what an error of a given kind says about the line it carries ---- *)
+  Lemma m_err_names_line ls n k :
+    parse_merchants pyparse ls = Err n k ->
+    exists n0 name ps, In (n0, name, ps) (sections_m ls) /\
+      ((k = EEmptyName /\ n = n0 /\ name = EmptyString) \/
+       (exists s, In (n, s) ps /\ prop_check s = Some k) \/
+       (n = n0 /\ exists pr, foldM apply_prop ps prule0 = Ok pr /\ finish_defect pr k)).
+  Proof.
+    intros H. apply parse_m_err_sections in H as ([[n0 name] ps] & Hin & B).
+    exists n0, name, ps. split; [exact Hin|]. now apply build_rule_err.
+  Qed.
+
+  Lemma m_missing_match_names_section ls n :
+    parse_merchants pyparse ls = Err n EMissingMatch ->
+    exists name ps, In (n, name, ps) (sections_m ls) /\ last_of KMatch (kvs ps) = None.
+  Proof.
+    intros H. apply m_err_names_line in H as (n0 & name & ps & Hin & [(E & _)|[(s & _ & C)|(-> & pr & F & D)]]).
+    - discriminate E.
+    - apply prop_check_kinds in C as [[E _]|(? & ? & _ & [[E _]|[[E _]|[[E _]|[E _]]]])]; discriminate E.
+    - exists name, ps. split; [exact Hin|]. inversion D as [M| | | |]; subst.
+      apply fold_props_spec in F. destruct F as (F1 & _). cbn in F1. rewrite M in F1.
+      destruct (last_of KMatch (kvs ps)); [discriminate F1|reflexivity].
+  Qed.
+
+  Lemma finish_defect_line_kinds pr k : finish_defect pr k ->
+    k = EMissingMatch \/ k = ENoCategoryOrTags \/ k = EInvalidLet \/ k = EInvalidField \/ k = EInvalidMatch.
+  Proof. destruct 1; auto 6. Qed.
+
+  (* a line-level error names exactly a content line of some section with that defect *)
+  Lemma m_line_error_names_line ls n k :
+    k = EUnknownProperty \/ k = EBadLet \/ k = EBadField \/ k = EBadPriority \/ k = EUnexpected ->
+    parse_merchants pyparse ls = Err n k ->
+    exists n0 name ps s, In (n0, name, ps) (sections_m ls) /\ In (n, s) ps /\ prop_check s = Some k.
+  Proof.
+    intros Hk H. apply m_err_names_line in H as (n0 & name & ps & Hin & [(E & _)|[(s & Hs & C)|(-> & pr & F & D)]]).
+    - subst. repeat destruct Hk as [Hk|Hk]; discriminate Hk.
+    - exists n0, name, ps, s. auto.
+    - apply finish_defect_line_kinds in D.
+      repeat destruct D as [D|D]; subst; repeat destruct Hk as [Hk|Hk]; discriminate Hk.
+  Qed.
+
+  (* an invalid-expression error names the header of a section holding an expression pyparse rejects *)
+  Lemma m_invalid_expr_names_section ls n k :
+    k = EInvalidLet \/ k = EInvalidField \/ k = EInvalidMatch ->
+    parse_merchants pyparse ls = Err n k ->
+    exists name ps e, In (n, name, ps) (sections_m ls) /\ pyparse e = false /\
+      ((k = EInvalidLet /\ exists x, In (x, e) (lets_of (kvs ps))) \/
+       (k = EInvalidField /\ exists x, In (x, e) (dict_of [] (fields_of (kvs ps)))) \/
+       (k = EInvalidMatch /\ last_of KMatch (kvs ps) = Some e)).
+  Proof.
+    intros Hk H. apply m_err_names_line in H as (n0 & name & ps & Hin & [(E & _)|[(s & Hs & C)|(-> & pr & F & D)]]).
+    - subst. repeat destruct Hk as [Hk|Hk]; discriminate Hk.
+    - apply prop_check_kinds in C as [[E _]|(? & ? & _ & [[E _]|[[E _]|[[E _]|[E _]]]])]; subst;
+        repeat destruct Hk as [Hk|Hk]; discriminate Hk.
+    - apply fold_props_spec in F. cbn zeta in F. destruct F as (F1 & _ & _ & _ & _ & _ & F7 & F8 & _).
+      cbn in F1, F7, F8.
+      inversion D as [M| |[x e] Hb Hp|[x e] Hb Hp|m M Hp]; subst;
+        try (repeat destruct Hk as [Hk|Hk]; discriminate Hk).
+      + exists name, ps, e. repeat split; auto. left. split; [reflexivity|]. exists x. now rewrite <- F7.
+      + exists name, ps, e. repeat split; auto. right; left. split; [reflexivity|]. exists x. now rewrite <- F8.
+      + exists name, ps, m. repeat split; auto. right; right. split; [reflexivity|].
+        rewrite M in F1. destruct (last_of KMatch (kvs ps)); [cbn in F1; congruence|discriminate F1].
+  Qed.
+
+  (* ---- views ---- *)
+  Definition preamble_v (ls : list string) : list (nat * string) :=
+    fst (group (map (fun p => (fst p, classify_v (snd p))) (number 1 ls))).
+
+  Lemma parse_v_err ls n k :
+    parse_views pyparse ls = Err n k ->
+    (exists s g, In (n, s) (preamble_v ls) /\ vpre_step pyparse g (n, s) = Err n k) \/
+    (exists sec, In sec (sections_v ls) /\ build_view pyparse sec = Err n k).
+  Proof.
+    unfold parse_views, parse_v_numbered, preamble_v, sections_v.
+    destruct (group _) as [pre secs]. cbn [fst snd].
+    destruct (foldM (vpre_step pyparse) pre []) as [g|n' k'] eqn:F; cbn [bind].
+    - destruct (mapM (build_view pyparse) secs) eqn:M; [discriminate|]. cbn [bind].
+      intros H; inversion H; subst. right. now apply mapM_Err.
+    - intros H; inversion H; subst. left.
+      apply foldM_Err in F as (g & [n' s] & Hin & E).
+      assert (n' = n).
+      { unfold vpre_step in E. destruct (vitem_of s); try (inversion E; reflexivity);
+          destruct (pyparse e); inversion E; reflexivity. }
+      subst. eauto.
+  Qed.
+
+  Lemma parse_v_bad_section ls sec n k :
+    In sec (sections_v ls) -> build_view pyparse sec = Err n k -> is_ok (parse_views pyparse ls) = false.
+  Proof.
+    unfold parse_views, parse_v_numbered, sections_v.
+    destruct (group _) as [pre secs]. cbn [snd].
+    intros Hin Hb. destruct (foldM (vpre_step pyparse) pre []); [|reflexivity]. cbn [bind].
+    pose proof (mapM_some_Err _ _ _ _ _ Hin Hb) as E.
+    destruct (mapM (build_view pyparse) secs); [discriminate E|reflexivity].
+  Qed.
+
+  Lemma v_reject_missing_filter ls n0 name lines :
+    In (n0, name, lines) (sections_v ls) -> last_filter (vitems lines) = None ->
+    is_ok (parse_views pyparse ls) = false.
+  Proof.
+    intros Hs Hm.
+    destruct (build_view pyparse (n0, name, lines)) as [v|n' k'] eqn:B.
+    - apply build_view_spec in B. destruct B as (_ & _ & B & _). congruence.
+    - eapply parse_v_bad_section; eauto.
+  Qed.
+
+  Lemma v_reject_bad_line ls n0 name lines n s k :
+    In (n0, name, lines) (sections_v ls) -> In (n, s) lines -> vline_check pyparse s = Some k ->
+    is_ok (parse_views pyparse ls) = false.
+  Proof.
+    intros Hs Hin C.
+    destruct (build_view pyparse (n0, name, lines)) as [v|n' k'] eqn:B.
+    - apply build_view_spec in B. destruct B as (_ & _ & _ & _ & _ & F).
+      rewrite Forall_forall in F. specialize (F _ Hin). cbn in F. congruence.
+    - eapply parse_v_bad_section; eauto.
+  Qed.
+
+  Lemma build_view_err n0 name lines n k :
+    build_view pyparse (n0, name, lines) = Err n k ->
+    (exists s, In (n, s) lines /\ vline_check pyparse s = Some k) \/
+    (n = n0 /\ k = VMissingFilter /\ last_filter (vitems lines) = None).
+  Proof.
+    unfold build_view. destruct (foldM (apply_vline pyparse) lines pview0) as [pv|] eqn:F; cbn [bind].
+    - destruct (q_filter pv) eqn:Q; [discriminate|]. intros H; inversion H; subst. right.
+      apply fold_vlines_spec in F. destruct F as (F1 & _). cbn in F1. rewrite Q in F1.
+      repeat split. destruct (last_filter (vitems lines)); [discriminate F1|reflexivity].
+    - intros H; inversion H; subst. left.
+      apply foldM_Err in F as (st' & [n' s] & Hin & E).
+      rewrite apply_vline_split in E. cbn [fst snd] in E.
+      destruct (vline_check pyparse s) eqn:C; [|discriminate]. inversion E; subst. eauto.
+  Qed.
+
+  Lemma v_missing_filter_names_section ls n :
+    parse_views pyparse ls = Err n VMissingFilter ->
+    exists name lines, In (n, name, lines) (sections_v ls) /\ last_filter (vitems lines) = None.
+  Proof.
+    intros H. apply parse_v_err in H as [(s & g & _ & E)|([[n0 name] lines] & Hin & B)].
+    - exfalso. unfold vpre_step in E. destruct (vitem_of s); try discriminate E; destruct (pyparse e); discriminate E.
+    - apply build_view_err in B as [(s & _ & C)|(-> & _ & L)].
+      + exfalso. unfold vline_check in C. destruct (vitem_of s); try discriminate C; destruct (pyparse e); discriminate C.
+      + eauto.
+  Qed.
+End Reject.
+
+(* ========================================================================================== *)
+(* I. no line is silently passed over                                                           *)
+
+Definition garbage : string := "%%%"%string.   (* not blank, not a comment, not a header, no ':' and no '=' *)
+
+Lemma mapM_prefix_ok {A B} (f : A -> res B) s1 r :
+  is_ok (mapM f (s1 ++ r)) = true -> exists a, mapM f s1 = Ok a.
+Proof. rewrite mapM_app. destruct (mapM f s1); [eauto|discriminate]. Qed.
+
+Lemma mapM_suffix_ok {A B} (f : A -> res B) s1 r :
+  is_ok (mapM f (s1 ++ r)) = true -> is_ok (mapM f r) = true.
+Proof. rewrite mapM_app. destruct (mapM f s1); [|discriminate]. cbn [bind]. destruct (mapM f r); auto. Qed.
+
+Lemma mapM_head_ok {A B} (f : A -> res B) x r : is_ok (mapM f (x :: r)) = true -> exists y, f x = Ok y.
+Proof. cbn [mapM]. destruct (f x); [eauto|discriminate]. Qed.
+
+Lemma mapM_err_at {A B} (f : A -> res B) s1 a x r n k :
+  mapM f s1 = Ok a -> f x = Err n k -> mapM f (s1 ++ x :: r) = Err n k.
+Proof. intros H1 H2. rewrite mapM_app, H1. cbn [bind mapM]. rewrite H2. reflexivity. Qed.
+
+Lemma foldM_prefix_ok {A S} (f : S -> A -> res S) l1 l2 s :
+  is_ok (foldM f (l1 ++ l2) s) = true -> exists s', foldM f l1 s = Ok s'.
+Proof. rewrite foldM_app. destruct (foldM f l1 s); [eauto|discriminate]. Qed.
+
+Section NoDrop.
+  Variable pyparse : string -> bool.
+  Let tk := fun p : nat * string => (fst p, classify_m (snd p)).
+  Let tkv := fun p : nat * string => (fst p, classify_v (snd p)).
+
+  (* inside a section the garbage line is an error at its own line number *)
+  Lemma m_garbage_in_section l1 l l2 :
+    in_section l1 = true ->
+    is_ok (parse_merchants pyparse (l1 ++ l :: l2)) = true ->
+    parse_merchants pyparse (l1 ++ garbage :: l2) = Err (S (length l1)) EUnexpected.
+  Proof.
+    intros Hin Hok. unfold parse_merchants in *. rewrite !number_app in *. cbn [number] in *.
+    unfold parse_m_numbered in *. fold tk in Hok. fold tk. rewrite !map_app in *. cbn [map] in *.
+    assert (Hh : has_header (map tk (number 1 l1)) = true) by (unfold tk; now rewrite has_header_number).
+    destruct (group_app_hdr _ Hh) as (pre1 & s1 & n0 & name & p & E).
+    rewrite E in *. clear E.
+    destruct (fold_left pre_step pre1 ([], [])) as [vars tr].
+    assert (Hm : is_ok (mapM (build_rule pyparse)
+               (s1 ++ (n0, name, p ++ fst (group (tk (1 + length l1, l) :: map tk (number (S (1 + length l1)) l2))))
+                   :: snd (group (tk (1 + length l1, l) :: map tk (number (S (1 + length l1)) l2))))) = true).
+    { destruct (mapM _ _); [reflexivity|discriminate Hok]. }
+    destruct (mapM_prefix_ok _ _ _ Hm) as [a Ha].
+    apply mapM_suffix_ok in Hm. apply mapM_head_ok in Hm as [r Hr].
+    unfold build_rule in Hr. destruct (is_empty name) eqn:En; [discriminate Hr|].
+    assert (Hf : exists st, foldM apply_prop p prule0 = Ok st).
+    { apply (foldM_prefix_ok _ p (fst (group (tk (1 + length l1, l) :: map tk (number (S (1 + length l1)) l2))))).
+      destruct (foldM apply_prop _ prule0); [reflexivity|discriminate Hr]. }
+    destruct Hf as [st Hst].
+    unfold tk at 1. cbn [fst snd group]. change (classify_m garbage) with (Content garbage).
+    destruct (group (map tk (number (S (1 + length l1)) l2))) as [q s2]. cbn [fst snd].
+    rewrite (mapM_err_at _ s1 a _ _ (1 + length l1) EUnexpected Ha); [reflexivity|].
+    unfold build_rule. rewrite En, foldM_app, Hst. cbn [bind foldM]. reflexivity.
+  Qed.
+
+  (* views: anywhere in the file *)
+  Lemma v_garbage_anywhere l1 l l2 :
+    is_ok (parse_views pyparse (l1 ++ l :: l2)) = true ->
+    parse_views pyparse (l1 ++ garbage :: l2) = Err (S (length l1)) VUnexpected.
+  Proof.
+    intros Hok. unfold parse_views in *. rewrite !number_app in *. cbn [number] in *.
+    unfold parse_v_numbered in *. fold tkv in Hok. fold tkv. rewrite !map_app in *. cbn [map] in *.
+    destruct (has_header (map tkv (number 1 l1))) eqn:Hh.
+    - destruct (group_app_hdr _ Hh) as (pre1 & s1 & n0 & name & p & E).
+      rewrite E in *. clear E.
+      destruct (foldM (vpre_step pyparse) pre1 []) as [g|]; [|discriminate Hok]. cbn [bind] in *.
+      assert (Hm : is_ok (mapM (build_view pyparse)
+                 (s1 ++ (n0, name, p ++ fst (group (tkv (1 + length l1, l) :: map tkv (number (S (1 + length l1)) l2))))
+                     :: snd (group (tkv (1 + length l1, l) :: map tkv (number (S (1 + length l1)) l2))))) = true).
+      { destruct (mapM _ _); [reflexivity|discriminate Hok]. }
+      destruct (mapM_prefix_ok _ _ _ Hm) as [a Ha].
+      apply mapM_suffix_ok in Hm. apply mapM_head_ok in Hm as [r Hr].
+      unfold build_view in Hr.
+      assert (Hf : exists st, foldM (apply_vline pyparse) p pview0 = Ok st).
+      { apply (foldM_prefix_ok _ p (fst (group (tkv (1 + length l1, l) :: map tkv (number (S (1 + length l1)) l2))))).
+        destruct (foldM (apply_vline pyparse) _ pview0); [reflexivity|discriminate Hr]. }
+      destruct Hf as [st Hst].
+      unfold tkv at 1. cbn [fst snd group]. change (classify_v garbage) with (Content garbage).
+      destruct (group (map tkv (number (S (1 + length l1)) l2))) as [q s2]. cbn [fst snd].
+      rewrite (mapM_err_at _ s1 a _ _ (1 + length l1) VUnexpected Ha); [reflexivity|].
+      unfold build_view. rewrite foldM_app, Hst. cbn [bind foldM]. reflexivity.
+    - rewrite !(group_app_nohdr _ _ Hh) in *. cbn [fst snd] in *.
+      assert (Hf : exists g, foldM (vpre_step pyparse) (contents (map tkv (number 1 l1))) [] = Ok g).
+      { apply (foldM_prefix_ok _ _ (fst (group (tkv (1 + length l1, l) :: map tkv (number (S (1 + length l1)) l2))))).
+        destruct (foldM (vpre_step pyparse) _ []); [reflexivity|discriminate Hok]. }
+      destruct Hf as [g Hg].
+      unfold tkv at 2. cbn [fst snd group]. change (classify_v garbage) with (Content garbage).
+      destruct (group (map tkv (number (S (1 + length l1)) l2))) as [q s2]. cbn [fst snd].
+      rewrite foldM_app, Hg. cbn [bind foldM]. reflexivity.
+  Qed.
+End NoDrop.
+
+(* ========================================================================================== *)
+(* J. command level                                                                             *)
+
+Section Load.
+  Variable pyparse : string -> bool.
+  Variable csv_rules : list string -> list string.
+
+  Lemma get_all_rules_ok ls f :
+    parse_merchants pyparse ls = Ok f -> get_all_rules pyparse csv_rules ls = Loaded (map r_name (m_rules f)).
+  Proof. unfold get_all_rules. now intros ->. Qed.
+
+  (* the swallow: a parse error is turned into whatever the CSV reader makes of the same file *)
+  Lemma get_all_rules_err ls n k :
+    parse_merchants pyparse ls = Err n k ->
+    get_all_rules pyparse csv_rules ls = Loaded (csv_rules ls) /\ get_transforms pyparse ls = [].
+  Proof. unfold get_all_rules, get_transforms. now intros ->. Qed.
+
+  Lemma load_views_err ls n k : parse_views pyparse ls = Err n k -> load_views pyparse ls = Reported n.
+  Proof. unfold load_views. now intros ->. Qed.
+End Load.
+
+(* ========================================================================================== *)
+(* K. layout insensitivity as one statement: the reflexive-symmetric-transitive closure of the    *)
+(*    layout edits never changes the outcome (line numbers erased; an error stays an error)       *)
+From Coq Require Import Relations.
+
+Section Layout.
+  Variable pyparse : string -> bool.
+
+  Definition erase_m (r : res mfile) : res mfile := renum_m (fun _ => 0) r.
+  Definition erase_v (r : res vfile) : res vfile := renum_v (fun _ => 0) r.
+
+  Lemma erase_renum_m f r : erase_m (renum_m f r) = erase_m r.
+  Proof.
+    destruct r as [m|n k]; [|reflexivity]. unfold erase_m, renum_m, emap, renum_mfile. cbn. f_equal. f_equal.
+    rewrite map_map. apply map_ext. intros x. reflexivity.
+  Qed.
+  Lemma erase_renum_v f r : erase_v (renum_v f r) = erase_v r.
+  Proof.
+    destruct r as [m|n k]; [|reflexivity]. unfold erase_v, renum_v, emap, renum_vfile. cbn. f_equal. f_equal.
+    rewrite map_map. apply map_ext. intros x. reflexivity.
+  Qed.
+
+  Lemma sim_emap {A} f (g : A -> A) r r' : sim r r' -> sim (emap f g r) (emap f g r').
+  Proof.
+    intros [->|[H1 H2]]; [apply sim_refl|]. right.
+    destruct r; [discriminate|]. destruct r'; [discriminate|]. split; reflexivity.
+  Qed.
+
+  Inductive layout_edit_m : list string -> list string -> Prop :=
+  | LM_comment l1 w t l2 : all_ws w = true -> layout_edit_m (l1 ++ l2) (l1 ++ (w ++ String "#" t)%string :: l2)
+  | LM_blank l1 c l2 : all_ws c = true -> layout_edit_m (l1 ++ l2) (l1 ++ c :: l2)
+  | LM_ws ls ls' : Forall2 (fun a b => strip a = strip b) ls ls' -> layout_edit_m ls ls'
+      (* trailing blanks, CR/LF, re-indentation of property lines and of headers *)
+  | LM_key_case l1 l l' l2 k k' v :
+      in_section l1 = true ->
+      strip l = (k ++ String ":" v)%string -> strip l' = (k' ++ String ":" v)%string ->
+      has_char ":" k = false -> has_char ":" k' = false -> lower k' = lower k -> is_content (strip l) = true ->
+      layout_edit_m (l1 ++ l :: l2) (l1 ++ l' :: l2)
+  | LM_permute l1 block block' l2 :
+      Permutation block block' -> in_section l1 = true -> Forall is_content_line block -> NoDup (map lk block) ->
+      layout_edit_m (l1 ++ block ++ l2) (l1 ++ block' ++ l2).
+
+  Definition same_outcome_m (a b : list string) : Prop :=
+    sim (erase_m (parse_merchants pyparse a)) (erase_m (parse_merchants pyparse b)).
+
+  Lemma layout_edit_m_sound a b : layout_edit_m a b -> same_outcome_m a b.
+  Proof.
+    unfold same_outcome_m. destruct 1.
+    - rewrite (m_insert_skip pyparse l1 _ l2 (classify_m_comment w t H)), erase_renum_m. apply sim_refl.
+    - rewrite (m_insert_skip pyparse l1 _ l2 (classify_m_blank c H)), erase_renum_m. apply sim_refl.
+    - rewrite (parse_m_strip_ext pyparse ls ls' H). apply sim_refl.
+    - rewrite (m_key_case pyparse l1 l l' l2 k k' v); auto. apply sim_refl.
+    - apply sim_emap. now apply m_permute_distinct.
+  Qed.
+
+  Theorem layout_insensitive_m a b : clos_refl_sym_trans _ layout_edit_m a b -> same_outcome_m a b.
+  Proof.
+    induction 1 as [a b H|a|a b _ IH|a b c _ IH1 _ IH2].
+    - now apply layout_edit_m_sound.
+    - apply sim_refl.
+    - now apply sim_sym.
+    - eapply sim_trans; eauto.
+  Qed.
+
+  Inductive layout_edit_v : list string -> list string -> Prop :=
+  | LV_comment l1 w t l2 : all_ws w = true -> layout_edit_v (l1 ++ l2) (l1 ++ (w ++ String "#" t)%string :: l2)
+  | LV_blank l1 c l2 : all_ws c = true -> layout_edit_v (l1 ++ l2) (l1 ++ c :: l2)
+  | LV_ws ls ls' :
+      Forall2 (fun a b => rstrip a = rstrip b \/ (strip a = strip b /\ first_is "[" (strip a) = false)) ls ls' ->
+      layout_edit_v ls ls'
+      (* trailing blanks and CR/LF on any line; re-indentation of lines that are not header-shaped *)
+  | LV_permute l1 block block' l2 :
+      Permutation block block' -> in_section_v l1 = true -> Forall is_content_line_v block ->
+      NoDup (map vk block) ->
+      layout_edit_v (l1 ++ block ++ l2) (l1 ++ block' ++ l2).
+
+  Definition same_outcome_v (a b : list string) : Prop :=
+    sim (erase_v (parse_views pyparse a)) (erase_v (parse_views pyparse b)).
+
+  Lemma layout_edit_v_sound a b : layout_edit_v a b -> same_outcome_v a b.
+  Proof.
+    unfold same_outcome_v. destruct 1.
+    - rewrite (v_insert_skip pyparse l1 _ l2 (classify_v_comment w t H)), erase_renum_v. apply sim_refl.
+    - rewrite (v_insert_skip pyparse l1 _ l2 (classify_v_blank c H)), erase_renum_v. apply sim_refl.
+    - rewrite (parse_v_ext pyparse ls ls'); [apply sim_refl|].
+      induction H as [|a b l l' [Hr|[Hs Hb]] _ IH]; constructor; auto using classify_v_rstrip, classify_v_strip.
+    - apply sim_emap. now apply v_permute_distinct.
+  Qed.
+
+  Theorem layout_insensitive_v a b : clos_refl_sym_trans _ layout_edit_v a b -> same_outcome_v a b.
+  Proof.
+    induction 1 as [a b H|a|a b _ IH|a b c _ IH1 _ IH2].
+    - now apply layout_edit_v_sound.
+    - apply sim_refl.
+    - now apply sim_sym.
+    - eapply sim_trans; eauto.
+  Qed.
+End Layout.
